@@ -542,6 +542,46 @@ func (e *Engine) enumTableSplit(st *State, x *ssa.UnOp) []*State {
 	return outs
 }
 
+// splitEnumTables: after a branch narrowed the byte that indexes a per-byte table of an enumerated type
+// (`if t := punctuation[c]; t != ErrorToken`) to a few candidates, one state per candidate keeps the table value
+// correlated with the byte (as enumTableSplit does when the candidates are few at the load already).
+func (e *Engine) splitEnumTables(st *State) []*State {
+	var pick ssa.Value
+	var pv AbsVal
+	for v, avP := range st.vals {
+		if avP.k != vTabInt || avP.mask != -1 || avP.tabX == nil {
+			continue
+		}
+		if _, named := v.Type().(*types.Named); !named {
+			continue
+		}
+		if n := e.eval(st, avP.tabX).byteSet().count(); n < 2 || n > 12 {
+			continue
+		}
+		if pick == nil || v.Pos() < pick.Pos() {
+			pick, pv = v, *avP
+		}
+	}
+	if pick == nil {
+		return []*State{st}
+	}
+	ms := e.eval(st, pv.tabX).byteSet().members()
+	var outs []*State
+	for i, b := range ms {
+		s := st
+		if i < len(ms)-1 {
+			s = st.clone()
+		}
+		e.refineByteVal(s, pv.tabX, bsOf(b))
+		if s.dead {
+			continue
+		}
+		s.setv(pick, intVal(pv.itable[b]))
+		outs = append(outs, s)
+	}
+	return outs
+}
+
 // writesFields: fn (or a module function it calls) stores into a field of a module struct.
 func (e *Engine) writesFields(fn *ssa.Function) bool {
 	if v, ok := e.writes[fn]; ok {
